@@ -362,7 +362,7 @@ def spec({p0}, {p1}, {p2}):
               'per-span name')
     ok = bool(cnl) and [ast.unparse(a) for a in cnl[0].args] == [f'{fb}.params.length', sf.params[2], sf.params[3]]
     ctx.check('R4.split', f'{site(sf)} input', ok, key(sf, 'cnl-args'), 'the split is not computed from the fibre\'s own length, the bounds and the target')
-    ctx.need('R4.split', 7)
+    ctx.need('R4.split', 5)
 
 
 def r5_order(ctx):
